@@ -25,7 +25,15 @@ func (r *v2rp) UnmarshalResourcePath(segs []restlicodec.Reader) error {
 func v2readers(segs []restlicodec.Reader) []string {
 	out := []string{}
 	for _, s := range segs {
-		out = append(out, s.String())
+		// READ the key (consuming the reader's cursor), as generated UnmarshalResourcePath / a key-inspecting filter does: every
+		// consumer - each filter hook, the method - must be handed readers positioned at the start of the key
+		if b, err := s.ReadRawBytes(); err == nil {
+			out = append(out, string(b))
+		} else {
+			// a reader at the start of a key always yields the whole key (Skip at position 0 cannot fail): an error means the
+			// reader was handed over already consumed
+			out = append(out, "<key reader not at the start: "+err.Error()+">")
+		}
 	}
 	return out
 }
